@@ -4,6 +4,8 @@ import (
 	"database/sql"
 	"errors"
 	"fmt"
+	"sort"
+	"strings"
 	"sync"
 	"testing"
 	"time"
@@ -15,6 +17,7 @@ import (
 	"verif/internal/chains"
 	"verif/internal/evid"
 	"verif/internal/harness"
+	"verif/internal/recdrv"
 	"verif/internal/testdb"
 )
 
@@ -43,10 +46,18 @@ func dry() (*gorm.DB, *gorm.DB) {
 			out *[]captured
 		}{{dryQ, &capQ}, {dryN, &capN}} {
 			out := h.out
-			if err := h.db.Callback().Create().After("gorm:create").Register("verif:capture", func(tx *gorm.DB) {
+			fn := func(tx *gorm.DB) {
 				*out = append(*out, captured{sql: tx.Statement.SQL.String(), vars: append([]interface{}(nil), tx.Statement.Vars...)})
-			}); err != nil {
-				panic(err)
+			}
+			cb := h.db.Callback()
+			for _, err := range []error{
+				cb.Create().Before("gorm:save_after_associations").Register("verif:capture", fn), // right after gorm:create, before the AfterCreate hooks
+				cb.Query().After("gorm:query").Register("verif:capture", fn),
+				cb.Row().After("gorm:row").Register("verif:capture", fn),
+			} {
+				if err != nil {
+					panic(err)
+				}
 			}
 		}
 	})
@@ -72,7 +83,7 @@ func allowedError(c *chains.Chain, err error, dryRun bool) bool {
 	if err == nil {
 		return true
 	}
-	if dryRun && (c.Fin == "scan") && errors.Is(err, gorm.ErrDryRunModeUnsupported) {
+	if dryRun && (c.Fin == "scan" || c.Fin == "rows") && errors.Is(err, gorm.ErrDryRunModeUnsupported) {
 		return true
 	}
 	if !dryRun && c.MayNotFind() && errors.Is(err, gorm.ErrRecordNotFound) {
@@ -89,6 +100,13 @@ func batchHandle(db *gorm.DB, c *chains.Chain) *gorm.DB {
 	return db
 }
 
+func lastN(l []captured, n int) []captured {
+	if len(l) > n {
+		return l[len(l)-n:]
+	}
+	return l
+}
+
 func checkDry(rt *rapid.T, c *chains.Chain) {
 	desc := c.String()
 	evid.Journal(desc)
@@ -102,7 +120,9 @@ func checkDry(rt *rapid.T, c *chains.Chain) {
 	stN := []captured{{sql: txN.Statement.SQL.String(), vars: txN.Statement.Vars}}
 	wants := plan.Dry[len(plan.Dry)-1:]
 	if plan.Hidden {
-		stQ, stN, wants = capQ, capN, plan.Dry
+		// statements built on handles the caller never sees (batches, Row, Rows, FindInBatches): the
+		// last ones the pipelines built (nested sub-queries are rendered before their outer statement)
+		stQ, stN, wants = lastN(capQ, len(plan.Dry)), lastN(capN, len(plan.Dry)), plan.Dry
 	}
 	info := c.Describe(false)
 	nVars, first := 0, sample{Chain: desc}
@@ -185,7 +205,7 @@ func capture(db *gorm.DB, out *[]captured) error {
 	}
 	cb := db.Callback()
 	for _, err := range []error{
-		cb.Create().After("gorm:create").Register("verif:capture", fn),
+		cb.Create().Before("gorm:save_after_associations").Register("verif:capture", fn), // right after gorm:create, before the AfterCreate hooks
 		cb.Query().After("gorm:query").Register("verif:capture", fn),
 		cb.Update().After("gorm:update").Register("verif:capture", fn),
 		cb.Delete().After("gorm:delete").Register("verif:capture", fn),
@@ -199,13 +219,31 @@ func capture(db *gorm.DB, out *[]captured) error {
 	return nil
 }
 
+// isSavepoint: transaction control sent as text (nested transactions use save points).
+func isSavepoint(text string) bool {
+	return strings.HasPrefix(text, "SAVEPOINT ") || strings.HasPrefix(text, "ROLLBACK TO ") || strings.HasPrefix(text, "RELEASE ")
+}
+
 func checkExec(rt *rapid.T, c *chains.Chain) {
+	// configuration of the handle: dialect with/without RETURNING, QueryFields, nested transactions
+	// off, and whether the chain runs inside an explicit transaction block
+	noReturning := c.CreatesFromMap() || rapid.IntRange(0, 3).Draw(rt, "noreturning") == 0
+	if c.Returning {
+		noReturning = false
+	}
+	queryFields := rapid.IntRange(0, 4).Draw(rt, "queryfields") == 0
+	noNested := rapid.Bool().Draw(rt, "nonested")
+	inTx := rapid.IntRange(0, 3).Draw(rt, "intx") == 0
 	desc := c.String()
+	if inTx {
+		desc = "in Transaction: " + desc
+	}
 	evid.Journal(desc)
 	// Create from maps is run on the dialect configuration without RETURNING: with it gorm
 	// fails (or panics) while scanning the returned keys back into []map values after the
 	// statement was sent, which is not this property's subject (see the report).
-	d := testdb.Open(testdb.Options{Config: gorm.Config{NowFunc: fixedNow, CreateBatchSize: c.ConfigBatchSize()}, NoReturning: c.CreatesFromMap()})
+	d := testdb.Open(testdb.Options{Config: gorm.Config{NowFunc: fixedNow, CreateBatchSize: c.ConfigBatchSize(), QueryFields: queryFields,
+		DisableNestedTransaction: noNested}, NoReturning: noReturning})
 	defer d.Close()
 	if err := chains.Prepare(d.SQL); err != nil {
 		rt.Fatalf("harness: cannot prepare the database: %v", err)
@@ -216,8 +254,27 @@ func checkExec(rt *rapid.T, c *chains.Chain) {
 	}
 	d.Rec.Reset()
 	rt.Logf("case: %s", desc)
-	tx := c.Apply(d.DB)
-	stmts := d.Rec.Statements()
+	var tx *gorm.DB
+	if inTx {
+		if err := d.Transaction(func(t *gorm.DB) error { tx = c.ApplyFrom(t, d.DB); return nil }); err != nil {
+			rt.Fatalf("C01 violated (driver level): the transaction block failed: %v\n  case: %s", err, desc)
+		}
+	} else {
+		tx = c.Apply(d.DB)
+	}
+	var stmts []recdrv.Event
+	for _, e := range d.Rec.Statements() {
+		if !isSavepoint(e.Text) {
+			stmts = append(stmts, e)
+		}
+	}
+	kept := caps[:0:0]
+	for _, cp := range caps {
+		if !isSavepoint(cp.sql) {
+			kept = append(kept, cp)
+		}
+	}
+	caps = kept
 	plan := c.Plan(chains.Mode{LiteralLimit: true, Now: fixedNow()})
 
 	info := c.Describe(true)
@@ -240,7 +297,14 @@ func checkExec(rt *rapid.T, c *chains.Chain) {
 		}
 		smp.Vars = chains.Render(vs)
 	}
-	evid.Case("exec "+desc, nt, smp, append(classes, "executed")...)
+	classes = append(classes, "executed")
+	for name, on := range map[string]bool{"config:no-returning": noReturning, "config:query-fields": queryFields, "config:no-nested-tx": noNested, "in-transaction": inTx} {
+		if on {
+			classes = append(classes, name)
+		}
+	}
+	sort.Strings(classes)
+	evid.Case("exec "+desc, nt, smp, classes...)
 
 	fail := func(format string, a ...interface{}) {
 		log := ""
@@ -492,7 +556,7 @@ func TestC01Reuse(t *testing.T) {
 		cfg := genConfig(true)
 		a := chains.Gen(rt, cfg)
 		p := chains.GenPrefix(rt, cfg, a)
-		if p == nil {
+		if p == nil || a.HiddenQuery() {
 			a = &chains.Chain{Kind: "query", Base: "item", Fin: "find"}
 			p = chains.GenPrefix(rt, cfg, a)
 			if p == nil {
